@@ -80,6 +80,10 @@ type qcfg struct {
 	yield int   // pause profile
 	gmp   int   // GOMAXPROCS
 	rs    int64 // seed of the pauses
+	// consumers with a fixed number of pulls (a sleeping consumer is then NOT rescued by a busier one or by Close):
+	quota   int  // pulls per consumer; 0 = pull until the closure is seen
+	park    bool // producers (and the closer) start only after every consumer is verified parked inside Pull
+	noclose bool // no Close at all (needs total pushes ≥ nc*quota)
 }
 
 func (c qcfg) args() []string {
@@ -89,7 +93,34 @@ func (c qcfg) args() []string {
 	}
 	return []string{"kind=" + c.kind, "cap=" + strconv.Itoa(c.cap), "np=" + strconv.Itoa(c.np), "nc=" + strconv.Itoa(c.nc),
 		"per=" + strings.Join(per, "."), "extra=" + strconv.Itoa(c.extra), "yield=" + strconv.Itoa(c.yield),
-		"gmp=" + strconv.Itoa(c.gmp), "rs=" + strconv.FormatInt(c.rs, 10)}
+		"gmp=" + strconv.Itoa(c.gmp), "rs=" + strconv.FormatInt(c.rs, 10),
+		"quota=" + strconv.Itoa(c.quota), "park=" + b01(c.park), "noclose=" + b01(c.noclose)}
+}
+
+func b01(b bool) string {
+	if b {
+		return "1"
+	}
+	return "0"
+}
+
+// parkedInQueue counts goroutines the runtime shows blocked in sync.Cond.Wait / chan receive below net/queue.
+func parkedInQueue() int {
+	buf := make([]byte, 1<<20)
+	buf = buf[:runtime.Stack(buf, true)]
+	n := 0
+	for _, g := range strings.Split(string(buf), "\n\n") {
+		nl := strings.IndexByte(g, '\n')
+		if nl < 0 {
+			continue
+		}
+		head := g[:nl]
+		if (strings.Contains(head, "[sync.Cond.Wait") || strings.Contains(head, "[chan receive")) &&
+			strings.Contains(g, "go-mc/net/queue.") {
+			n++
+		}
+	}
+	return n
 }
 
 func parseQcfg(args []string) qcfg {
@@ -97,6 +128,7 @@ func parseQcfg(args []string) qcfg {
 	c := qcfg{kind: m["kind"], cap: c20Atoi(m["cap"]), np: c20Atoi(m["np"]), nc: c20Atoi(m["nc"]), extra: c20Atoi(m["extra"]),
 		yield: c20Atoi(m["yield"]), gmp: c20Atoi(m["gmp"])}
 	c.rs, _ = strconv.ParseInt(m["rs"], 10, 64)
+	c.quota, c.park, c.noclose = c20Atoi(m["quota"]), m["park"] == "1", m["noclose"] == "1"
 	for _, s := range strings.Split(m["per"], ".") {
 		if s != "" {
 			c.per = append(c.per, c20Atoi(s))
@@ -166,6 +198,13 @@ func runQueueOnce(cfg qcfg, patience time.Duration) (hist string, status string)
 	var all, prod sync.WaitGroup
 	all.Add(nG)
 	prod.Add(cfg.np)
+	release := make(chan struct{}) // park mode: producers and closer wait here until the consumers are parked
+	parkedBefore := 0
+	if cfg.park {
+		parkedBefore = parkedInQueue() // sleepers leaked by earlier hung runs
+	} else {
+		close(release)
+	}
 	worker := func(g int, isProd bool, body func(r *rand.Rand)) {
 		go func() {
 			defer all.Done()
@@ -179,7 +218,7 @@ func runQueueOnce(cfg qcfg, patience time.Duration) (hist string, status string)
 			}()
 			r := rand.New(rand.NewSource(cfg.rs*1000003 + int64(g)))
 			// staggered starts: consumers often arrive first and go to sleep
-			if cfg.yield > 0 && r.Intn(3) == 0 {
+			if !cfg.park && cfg.yield > 0 && r.Intn(3) == 0 {
 				time.Sleep(time.Duration(r.Intn(150)) * time.Microsecond)
 			}
 			body(r)
@@ -188,8 +227,11 @@ func runQueueOnce(cfg qcfg, patience time.Duration) (hist string, status string)
 	for p := 0; p < cfg.np; p++ {
 		p := p
 		worker(p, true, func(r *rand.Rand) {
+			<-release
 			for i := 0; i < cfg.per[p]; i++ {
-				pause(r, cfg.yield)
+				if !cfg.park { // park mode: back-to-back pushes, no yielding
+					pause(r, cfg.yield)
+				}
 				v := (p+1)*1000 + i + 1
 				st := clock.Add(1)
 				ok := q.Push(v)
@@ -206,8 +248,10 @@ func runQueueOnce(cfg qcfg, patience time.Duration) (hist string, status string)
 		g := cfg.np + c
 		worker(g, false, func(r *rand.Rand) {
 			extra := cfg.extra
-			for {
-				pause(r, cfg.yield)
+			for n := 0; cfg.quota == 0 || n < cfg.quota; n++ {
+				if !cfg.park {
+					pause(r, cfg.yield)
+				}
 				st := clock.Add(1)
 				v, ok := q.Pull()
 				en := clock.Add(1)
@@ -227,12 +271,24 @@ func runQueueOnce(cfg qcfg, patience time.Duration) (hist string, status string)
 		g := cfg.np + cfg.nc
 		worker(g, false, func(r *rand.Rand) {
 			prod.Wait() // every push happens-before Close
-			pause(r, cfg.yield)
+			if cfg.noclose {
+				return
+			}
+			if !cfg.park {
+				pause(r, cfg.yield)
+			}
 			st := clock.Add(1)
 			q.Close()
 			en := clock.Add(1)
 			logs[g] = append(logs[g], qev{g, 'c', 0, 1, st, en})
 		})
+	}
+	if cfg.park {
+		// wait until the runtime shows every consumer blocked inside Pull (bounded; the oracle does not depend on it)
+		for dl := time.Now().Add(2 * time.Second); parkedInQueue() < parkedBefore+cfg.nc && time.Now().Before(dl); {
+			time.Sleep(200 * time.Microsecond)
+		}
+		close(release)
 	}
 	done := make(chan struct{})
 	go func() { all.Wait(); close(done) }()
@@ -275,7 +331,11 @@ wait:
 var c20ConfirmedHangs int
 
 func c20QRun(c *Ctx, cfg qcfg) {
-	hist, status := runQueueOnce(cfg, 5*time.Second)
+	first := 5 * time.Second
+	if c20ConfirmedHangs >= 2 {
+		first = 2 * time.Second // a lost wake-up has already been established in this process: do not spend minutes on it
+	}
+	hist, status := runQueueOnce(cfg, first)
 	var obs string
 	switch status {
 	case "":
@@ -327,9 +387,54 @@ func genQcfg(r *rand.Rand, i int) qcfg {
 	default:
 		total = r.Intn(budget + 1)
 	}
+	if cfg.kind == "linked" && i%3 == 1 {
+		// fixed quotas, no Close: nobody rescues a consumer whose wake-up was lost
+		cfg.extra, cfg.noclose = 0, true
+		cfg.quota = 1 + r.Intn(3)
+		for cfg.nc*cfg.quota > 30 {
+			cfg.nc--
+		}
+		total = cfg.nc*cfg.quota + []int{0, 0, 1, 2}[r.Intn(4)]
+	}
 	cfg.per = make([]int, cfg.np)
 	for k := 0; k < total; k++ {
 		cfg.per[r.Intn(cfg.np)]++
+	}
+	return cfg
+}
+
+// genParkCfg: k consumers with a fixed number of pulls, verified parked; then m pushes back-to-back from one
+// goroutine (np = 1) or from several goroutines released by one barrier; Close never, or right after the pushes
+// (then possibly instead of the last pushes).  Every consumer must return: an item or the close is present for
+// each of them.  (A "signal only when the queue was empty" optimisation leaves the second consumer asleep.)
+func genParkCfg(r *rand.Rand, i int) qcfg {
+	cfg := qcfg{kind: "linked", rs: r.Int63n(1 << 40), park: true, yield: 0}
+	if i%5 == 4 {
+		cfg.kind = "chan"
+		cfg.cap = 64
+	}
+	cfg.nc = []int{2, 2, 2, 3, 3, 4, 4, 6, 8}[r.Intn(9)]
+	cfg.quota = []int{1, 1, 1, 2}[r.Intn(4)]
+	need := cfg.nc * cfg.quota
+	cfg.np = []int{1, 1, 1, 2, 3, 4}[r.Intn(6)]
+	ncpu := runtime.NumCPU()
+	cfg.gmp = []int{1, 1, 2, 4, 8, ncpu}[r.Intn(6)]
+	if cfg.gmp > ncpu {
+		cfg.gmp = ncpu
+	}
+	total := need + []int{0, 0, 1, 3}[r.Intn(4)]
+	switch r.Intn(4) {
+	case 0: // Close right after the pushes; possibly fewer items than consumers (Close instead of the last pushes)
+		total = need - []int{0, 1, 1, 2}[r.Intn(4)]
+		if total < 0 {
+			total = 0
+		}
+	default:
+		cfg.noclose = true
+	}
+	cfg.per = make([]int, cfg.np)
+	for k := 0; k < total; k++ {
+		cfg.per[k%cfg.np]++
 	}
 	return cfg
 }
@@ -997,6 +1102,136 @@ func c20PlLocks(c *Ctx) bool {
 	return obs == "ok"
 }
 
+// c20QueueSignals: the T1-style fact the model's `pushSignal` / `closeBroadcast` / `pullWait` steps assume — in
+// LinkedListQueue.Push the call cond.Signal() (or Broadcast) is a top-level statement of the body after PushBack,
+// with no return before it (executed unconditionally on the non-panicking path); Close calls cond.Broadcast()
+// unconditionally; Pull calls cond.Wait() inside a `for` loop.
+func c20QueueSignals(c *Ctx) {
+	file := ""
+	if f := runtime.FuncForPC(reflect.ValueOf(server.NewPlayerList).Pointer()); f != nil {
+		pl, _ := f.FileLine(f.Entry())
+		file = filepath.Join(filepath.Dir(filepath.Dir(pl)), "net", "queue", "queue.go")
+	}
+	if _, err := os.Stat(file); err != nil {
+		repo := os.Getenv("VERIF_REPO")
+		if repo == "" {
+			repo = "/repo"
+		}
+		file = filepath.Join(repo, "net", "queue", "queue.go")
+	}
+	af, err := parser.ParseFile(token.NewFileSet(), file, nil, 0)
+	if err != nil {
+		c.Emit("queue.signals", nil, "bad:cannot-parse")
+		return
+	}
+	condCall := func(n ast.Node, names ...string) bool { // <x>.cond.<name>()
+		call, ok := n.(*ast.CallExpr)
+		if !ok {
+			return false
+		}
+		sel, ok := call.Fun.(*ast.SelectorExpr)
+		if !ok {
+			return false
+		}
+		inner, ok := sel.X.(*ast.SelectorExpr)
+		if !ok || inner.Sel.Name != "cond" {
+			return false
+		}
+		for _, nm := range names {
+			if sel.Sel.Name == nm {
+				return true
+			}
+		}
+		return false
+	}
+	contains := func(root ast.Node, pred func(ast.Node) bool) bool {
+		found := false
+		ast.Inspect(root, func(n ast.Node) bool {
+			if n != nil && pred(n) {
+				found = true
+			}
+			return !found
+		})
+		return found
+	}
+	isReturn := func(n ast.Node) bool { _, ok := n.(*ast.ReturnStmt); return ok }
+	// index of the first top-level statement `x.cond.<names>()`; every statement before it must be return-free
+	topLevel := func(fd *ast.FuncDecl, names ...string) string {
+		for _, st := range fd.Body.List {
+			if es, ok := st.(*ast.ExprStmt); ok && condCall(es.X, names...) {
+				return ""
+			}
+			if contains(st, isReturn) {
+				return "return-before-" + names[0]
+			}
+			if contains(st, func(n ast.Node) bool { return condCall(n, names...) }) {
+				return names[0] + "-is-conditional"
+			}
+		}
+		return "no-" + names[0]
+	}
+	obs := "ok"
+	seen := map[string]bool{}
+	for _, d := range af.Decls {
+		fd, ok := d.(*ast.FuncDecl)
+		if !ok || fd.Body == nil || fd.Recv == nil || len(fd.Recv.List) != 1 ||
+			!contains(fd.Recv.List[0].Type, func(n ast.Node) bool { id, ok := n.(*ast.Ident); return ok && id.Name == "LinkedListQueue" }) {
+			continue
+		}
+		why := ""
+		switch fd.Name.Name {
+		case "Push":
+			why = topLevel(fd, "Signal", "Broadcast")
+			if why == "" {
+				// the append must come first
+				pushBack := func(n ast.Node) bool {
+					call, ok := n.(*ast.CallExpr)
+					if !ok {
+						return false
+					}
+					sel, ok := call.Fun.(*ast.SelectorExpr)
+					return ok && sel.Sel.Name == "PushBack"
+				}
+				before := false
+				for _, st := range fd.Body.List {
+					if es, ok := st.(*ast.ExprStmt); ok && condCall(es.X, "Signal", "Broadcast") {
+						break
+					}
+					if es, ok := st.(*ast.ExprStmt); ok && pushBack(es.X) {
+						before = true
+					}
+				}
+				if !before {
+					why = "no-unconditional-PushBack-before-Signal"
+				}
+			}
+		case "Close":
+			why = topLevel(fd, "Broadcast")
+		case "Pull":
+			inLoop := false
+			ast.Inspect(fd.Body, func(n ast.Node) bool {
+				if fs, ok := n.(*ast.ForStmt); ok && contains(fs.Body, func(m ast.Node) bool { return condCall(m, "Wait") }) {
+					inLoop = true
+				}
+				return true
+			})
+			if !inLoop {
+				why = "Wait-not-in-loop"
+			}
+		default:
+			continue
+		}
+		seen[fd.Name.Name] = true
+		if why != "" && obs == "ok" {
+			obs = "bad:" + fd.Name.Name + ":" + why
+		}
+	}
+	if obs == "ok" && !(seen["Push"] && seen["Close"] && seen["Pull"]) {
+		obs = "bad:methods-not-found"
+	}
+	c.Emit("queue.signals", nil, obs)
+}
+
 // ---------------------------------------------------------------------------------------------------------
 
 func replayC20(c *Ctx, op string, args []string) bool {
@@ -1016,6 +1251,8 @@ func replayC20(c *Ctx, op string, args []string) bool {
 		c20PlSeq(c, c20Atoi(m["cap"]), strings.Split(m["ops"], ","))
 	case "playerlist.locks":
 		c20PlLocks(c)
+	case "queue.signals":
+		c20QueueSignals(c)
 	default:
 		return false
 	}
@@ -1024,6 +1261,11 @@ func replayC20(c *Ctx, op string, args []string) bool {
 
 func genC20(c *Ctx) {
 	locksOK := c20PlLocks(c)
+	c20QueueSignals(c)
+	// k ≥ 2 consumers verified parked, then back-to-back pushes / a barrier of producers / Close
+	for i := 0; i < c.N(600, 6000) && c20ConfirmedHangs < 2; i++ {
+		c20QRun(c, genParkCfg(c.R, i))
+	}
 	// deterministic scripts
 	for i := 0; i < c.N(3000, 30000) && c20UnexpectedBlocks < 3; i++ {
 		kind, capN, ops := genQSeq(c, false)
